@@ -7,3 +7,4 @@ import Theorems.C09
 #print axioms C09.inverse_is_decoder
 #print axioms C09.ml_is_nearest_decoder
 #print axioms C09.link_chanSub
+#print axioms C09.link_reed
